@@ -564,3 +564,32 @@ def hex_block_outside_a_third_core_model_is_not_cut(i: int, j: int, k: int, edge
     assert b.getSymmetryFactor() == 1.0
     lone = new(HexBlock, name="b", parent=None, spatialLocator=None, _children=[])
     assert lone.getSymmetryFactor() == 1.0
+
+
+CartesianBlock = repo("armi.reactor.blocks:CartesianBlock")
+geometry = repo("armi.reactor.geometry")
+
+
+class SymGrid:
+    """stand-in core grid of a Cartesian core: only its symmetry (a real geometry.SymmetryType) is read"""
+
+
+def cartesian_block_in_core(i, j, k, symmetry):
+    core = new(Core, name="core", parent=None, spatialGrid=new(SymGrid, symmetry=geometry.SymmetryType.fromStr(symmetry)), _children=[])
+    a = new(Composite, name="a", parent=core, _children=[])
+    return new(CartesianBlock, name="b", parent=a, spatialLocator=new(Loc, grid=None, ijk=(i, j, k)), _children=[])
+
+
+@lemma(gen={"i": (0, 4), "j": (0, 4), "k": (0, 5)})
+def cartesian_block_symmetry_factor_in_a_quarter_core(i: int, j: int, k: int):
+    """CartesianBlock.getSymmetryFactor in a quarter-core model (i, j >= 0 are the modelled positions): with the boundary
+    lines through the centre assembly the centre is cut by both lines (4), the positions on one line are halved (2); with the
+    lines between assemblies nothing is cut; a block outside any core is whole.  (The full-core case is in
+    contracts/pending/C02_composite_finding.py.)  Stand-ins: Loc, SymGrid, Core / assembly built with new()."""
+    assume(i >= 0 and j >= 0)
+    for bc in ("reflective", "periodic"):
+        s = cartesian_block_in_core(i, j, k, "quarter core " + bc + " through center assembly").getSymmetryFactor()
+        onX, onY = (j == 0), (i == 0)
+        assert s == (4.0 if onX and onY else 2.0 if onX or onY else 1.0), "cut by two / one / no boundary line"
+        assert cartesian_block_in_core(i, j, k, "quarter core " + bc).getSymmetryFactor() == 1.0, "boundary between assemblies: nothing is cut"
+    assert new(CartesianBlock, name="b", parent=None, spatialLocator=None, _children=[]).getSymmetryFactor() == 1.0
